@@ -155,28 +155,25 @@ Lemma step_ge x y st :
   step M (mkst fn ret locs (y :: x :: st) cs ip g out) = MNext (mkst fn ret locs (MBool (Z.geb (val_compare x y) 0) :: st) cs (ip + 1) g out).
 Proof. intros H. step_tac H. reflexivity. Qed.
 
-Lemma step_jmp z tgt st :
-  at_instr M fn ip (mk OP_JMP [i32 z]) ->
-  (-2147483648 <= z < 2147483648)%Z -> Z.of_nat tgt = (Z.of_nat ip + z)%Z ->
-  step M (mkst fn ret locs st cs ip g out) = MNext (mkst fn ret locs st cs tgt g out).
-Proof. intros H Hz Ht. step_tac H. cbn. rewrite (jump_target_i32 ip z tgt Hz Ht). reflexivity. Qed.
+Lemma step_jmp z st :
+  at_instr M fn ip (mk OP_JMP [i32 z]) -> (-2147483648 <= z < 2147483648)%Z ->
+  step M (mkst fn ret locs st cs ip g out) = MNext (mkst fn ret locs st cs (Z.to_nat (Z.of_nat ip + z)) g out).
+Proof. intros H Hz. step_tac H. cbn. unfold jump_target. rewrite (i32_signed z Hz). reflexivity. Qed.
 
-Lemma step_jmp_false z tgt c st :
-  at_instr M fn ip (mk OP_JMP_FALSE [i32 z]) ->
-  (-2147483648 <= z < 2147483648)%Z -> Z.of_nat tgt = (Z.of_nat ip + z)%Z ->
+Lemma step_jmp_false z c st :
+  at_instr M fn ip (mk OP_JMP_FALSE [i32 z]) -> (-2147483648 <= z < 2147483648)%Z ->
   step M (mkst fn ret locs (c :: st) cs ip g out) =
-  MNext (mkst fn ret locs st cs (if truthy c then ip + 5 else tgt) g out).
+  MNext (mkst fn ret locs st cs (if truthy c then ip + 5 else Z.to_nat (Z.of_nat ip + z)) g out).
 Proof.
-  intros H Hz Ht. step_tac H. cbn. rewrite (jump_target_i32 ip z tgt Hz Ht). destruct (truthy c); reflexivity.
+  intros H Hz. step_tac H. cbn. unfold jump_target. rewrite (i32_signed z Hz). destruct (truthy c); reflexivity.
 Qed.
 
-Lemma step_jmp_true z tgt c st :
-  at_instr M fn ip (mk OP_JMP_TRUE [i32 z]) ->
-  (-2147483648 <= z < 2147483648)%Z -> Z.of_nat tgt = (Z.of_nat ip + z)%Z ->
+Lemma step_jmp_true z c st :
+  at_instr M fn ip (mk OP_JMP_TRUE [i32 z]) -> (-2147483648 <= z < 2147483648)%Z ->
   step M (mkst fn ret locs (c :: st) cs ip g out) =
-  MNext (mkst fn ret locs st cs (if truthy c then tgt else ip + 5) g out).
+  MNext (mkst fn ret locs st cs (if truthy c then Z.to_nat (Z.of_nat ip + z) else ip + 5) g out).
 Proof.
-  intros H Hz Ht. step_tac H. cbn. rewrite (jump_target_i32 ip z tgt Hz Ht). destruct (truthy c); reflexivity.
+  intros H Hz. step_tac H. cbn. unfold jump_target. rewrite (i32_signed z Hz). destruct (truthy c); reflexivity.
 Qed.
 
 Lemma step_print (nl : bool) v st :
